@@ -70,6 +70,8 @@ def width_formula(ctx, prog, rule):
         # value = (uint & mask) as i128 + min as i128, mask = (1u128 << bits) - 1
         for bi, t in g.calls(lambda c, t: c.endswith("VecDeque::<T, A>::push_back")):
             v = strip(Rg.operand(t["args"][1]))
+            if v[0] == "call" and v[1].startswith("record::RecordValue::") and len(v[2]) == 1:
+                v = ("agg", ("adt", "record::RecordValue", v[1].rsplit("::", 1)[-1], ("0",)), v[2])    # constructor fn = tuple variant literal
             if v[0] == "agg" and v[2]:
                 x = strip(v[2][0])
                 while x[0] == "cast":
